@@ -366,10 +366,15 @@ def check_preserve(prog: Program, res: Result) -> None:
                 if f"_neighbors[{atomp}]" in it or f"bonded_to({atomp})" in it \
                         or f"_neighbors.pop({atomp}" in it:
                     n = node.target.id
-                    body = " ".join(norm(b, 300) for b in node.body)
-                    if f"remove_bond({atomp}, {n})" in body or \
-                            f"remove_bond({n}, {atomp})" in body:
-                        ok_loop = True
+                    for c_ in ast.walk(node):
+                        if isinstance(c_, ast.Call) and isinstance(
+                                c_.func, ast.Attribute) and \
+                                c_.func.attr == "remove_bond":
+                            b_ = prog.bound_args(c_)
+                            ends = sorted(norm(v) for v in (
+                                b_.values() if b_ else c_.args))
+                            if ends == sorted([atomp, n]):
+                                ok_loop = True
         inst = f"{tag}.remove_atom: every incident bond removed via its neighbour set"
         if ok_loop:
             res.ok("R-PRESERVE", inst, mg_fi.loc())
